@@ -19,6 +19,8 @@ void vf_reach(const char* label);
 void vf_spawn(void (*fn)(void*), void* arg);
 void vf_atomic_begin();
 void vf_atomic_end();
+void vf_race_write(const void* p);  // race probes: a plain write / read of shared payload at address p
+void vf_race_read(const void* p);   // (checked by the happens-before detector when the spec sets rt_defs VF_RACE)
 void vf_sched_point();  // a point where the scheduler may switch threads (no other effect)
 int vf_self();
 void vf_join_all();
